@@ -544,8 +544,10 @@ class MFail(Monitor):
 def _loose_eq(g, w):
     if isinstance(g, dict) and isinstance(w, dict):
         if set(g) != set(w):
-            return False
-        for k in g:
+            # an Error Output SHOULD carry a Cause: tolerate one the engine supplies where the reference has none
+            if not ("Error" in w and set(g) - set(w) == {"Cause"} and not set(w) - set(g)):
+                return False
+        for k in w:
             if k == "Cause" and isinstance(g[k], str) and isinstance(w[k], str):
                 if not g[k].endswith(w[k]):
                     return False
